@@ -262,7 +262,7 @@ def leg_a(ctx, bdir):
     if q:
         sigs += gen_signatures(ctx, "short", 2, False, False)
         sigs += gen_signatures(ctx, "reduced3", 3, False, True)
-        sigs += gen_signatures(ctx, "long", 32, True, False, simulate=40, depth=33)
+        sigs += gen_signatures(ctx, "long", 32, True, False, simulate=30, depth=33)
     else:
         sigs += gen_signatures(ctx, "short", 2, False, False)
         sigs += gen_signatures(ctx, "short3", 3, False, False, slim=True)
